@@ -5,13 +5,14 @@ run(ctx):  generate areas x requests x points  ->  real pyresample (harness/impl
            -> correspondence (binary64 instance of Model/C01_Area.v evaluated by vm_compute, bit-exact; PROJ as finite tables).
 """
 import math
+import re
 import struct
 import warnings
 from fractions import Fraction as Fr
 
 import numpy as np
 
-from .common import fhex as _fhex, ints, zlist
+from .common import fhex as _fhex, evals, zlist
 
 warnings.filterwarnings("ignore")
 from pyproj import CRS, Proj, Transformer  # noqa: E402
@@ -45,10 +46,11 @@ POOL = [
     ("epsg4326", "EPSG:4326", (-170.0, -80.0, 170.0, 80.0)),
     ("epsg32633", "EPSG:32633", (1.7e5, 1e5, 8.3e5, 9e6)),
     ("ortho", "+proj=ortho +lat_0=40 +lon_0=10 +ellps=WGS84", (-4e6, -4e6, 4e6, 4e6)),
+    ("ob_tran_eqc", "+proj=ob_tran +o_proj=eqc +o_lat_p=30 +o_lon_p=10 +lon_0=-10 +a=6371000.0", (-6e6, -4e6, 6e6, 4e6)),
     # on purpose: a Bound CRS (datum shift to WGS84 attached) and a derived geographic CRS (rotated pole)
     ("bound", "+proj=stere +lat_0=90 +lon_0=0 +ellps=bessel +towgs84=598.1,73.7,418.2,0.202,0.045,-2.455,6.7 +units=m",
      (-2e6, -2e6, 2e6, 2e6)),
-    ("ob_tran", "+proj=ob_tran +o_proj=longlat +o_lon_p=0 +o_lat_p=40 +lon_0=10 +ellps=WGS84", (-30.0, -30.0, 30.0, 30.0)),
+    ("ob_tran_ll", "+proj=ob_tran +o_proj=longlat +o_lon_p=0 +o_lat_p=40 +lon_0=10 +ellps=WGS84", (-30.0, -30.0, 30.0, 30.0)),
 ]
 POOL_D = {p[0]: p for p in POOL}
 
@@ -262,7 +264,9 @@ def gen_area(rng, tier_thorough, idx, force=None):
         ext = [ext[2], ext[1], ext[0], ext[3]]
         flip = "x"
     spec = {"crs": crs_def, "extent": ext, "w": w, "h": h,
-            "meta": {"crs_name": name, "mode": mode, "flip": flip, "idx": idx}}
+            "meta": {"crs_name": name, "mode": mode, "flip": flip, "idx": idx,
+                     # accuracy granted to PROJ's forward/inverse pair, in projection units (1e-12 of the CRS's plane: ~1e-5 m)
+                     "proj_acc": 1e-12 * max(abs(v) for v in box)}}
     # --- requests
     spec["vec_requests"] = [{"chunks": rng.choice([1, 3, 100, [rng.choice([1, 2, 100]), rng.choice([1, 5, 100])]]), "dtype": None}]
     if rng.random() < 0.3:
@@ -412,6 +416,7 @@ class Eval:
         self.name = self.meta["crs_name"]
         self.cls = self.meta.get("crs_class", "plain")
         self.T, self.P, self.R, _ = routes(spec["crs"])
+        self.acc = self.meta.get("proj_acc", 1e-5)
         self.seen = set()
 
     # -- bookkeeping
@@ -669,8 +674,8 @@ class Eval:
         # ill-conditioned inverse (pole, disk edge): accept when the impl's lon/lat projects back onto the canonical point
         if fi:
             bx, by = self.R.transform(lon, lat)
-            if math.isfinite(bx) and math.isfinite(by) and abs(bx - x) <= tol_px * abs(float(self.o.dx)) + 4 * U64 * abs(x) \
-                    and abs(by - y) <= tol_px * abs(float(self.o.dy)) + 4 * U64 * abs(y):
+            if math.isfinite(bx) and math.isfinite(by) and abs(bx - x) <= tol_px * abs(float(self.o.dx)) + 4 * U64 * abs(x) + self.acc \
+                    and abs(by - y) <= tol_px * abs(float(self.o.dy)) + 4 * U64 * abs(y) + self.acc:
                 return True
         if fi != fr:
             # domain edge: finiteness may flip within an ulp of the coordinate
@@ -767,7 +772,7 @@ class Eval:
                         fr = math.isfinite(RLON[r_, c_]) and math.isfinite(RLAT[r_, c_])
                         if fi and fr and float(ang_deg(lo[i, j], la[i, j], RLON[r_, c_], RLAT[r_, c_])) > 1e-4 and \
                                 not self.ll_close(float(lo[i, j]), float(la[i, j]), float(RLON[r_, c_]), float(RLAT[r_, c_]), float(cx[c_]), float(cy[r_]), tol_px):
-                            self.fail(key + ".f32", "%s: (%r,%r) for pixel (%d,%d), geodetic lon/lat (%r,%r)" % (what, lo[i, j], la[i, j], r_, c_, RLON[r_, c_], RLAT[r_, c_]))
+                            self.fail(key + (".f32" if self.cls == "plain" else ""), "%s: (%r,%r) for pixel (%d,%d), geodetic lon/lat (%r,%r)" % (what, lo[i, j], la[i, j], r_, c_, RLON[r_, c_], RLAT[r_, c_]))
                             good = False
                     elif good and not cmp_ref(lo[i, j], la[i, j], r_, c_, what, key):
                         good = False
@@ -861,8 +866,10 @@ class Eval:
                     r_, c_ = kd[1], kd[2]
                     fin = math.isfinite(lon) and math.isfinite(lat)
                     if fin:
-                        slack_x = 1e-6 * abs(float(o.dx)) + 8 * U64 * o.mx
-                        slack_y = 1e-6 * abs(float(o.dy)) + 8 * U64 * o.my
+                        slack_x = 1e-6 * abs(float(o.dx)) + 8 * U64 * o.mx + self.acc
+                        slack_y = 1e-6 * abs(float(o.dy)) + 8 * U64 * o.my + self.acc
+                        tol_c = 1e-5 + 2 * slack_x / abs(float(o.dx))
+                        tol_r = 1e-5 + 2 * slack_y / abs(float(o.dy))
                         if not (finite(x) and finite(y) and abs(x - float(cx[c_])) <= slack_x and abs(y - float(cy[r_])) <= slack_y):
                             # accept ill-conditioned points where the reference forward map itself does not return to the centre
                             bx, by = R.transform(lon, lat)
@@ -874,11 +881,13 @@ class Eval:
                             else:
                                 ctx.count("lonlat_roundtrip_ill_conditioned")
                                 fin = False
-                        if fin and not (finite(cf) and finite(rf) and abs(cf - c_) <= 1e-5 and abs(rf - r_) <= 1e-5):
+                        if fin and not (finite(cf) and finite(rf) and abs(cf - c_) <= tol_c and abs(rf - r_) <= tol_r):
                             self.fail(self.ll_key("get_array_coordinates_from_lonlat", True),
                                       "get_array_coordinates_from_lonlat(lon/lat of pixel (row %d, col %d)) gives (%r, %r)" % (r_, c_, cf, rf),
                                       {"row": r_, "col": c_, "lonlat": [lon, lat], "impl": [cf, rf]})
-                        if fin and (cm or rm or cd != c_ or rd != r_):
+                        if fin and max(tol_c, tol_r) >= 0.4:
+                            ctx.count("lonlat_roundtrip_below_proj_accuracy")
+                        elif fin and (cm or rm or cd != c_ or rd != r_):
                             self.fail(self.ll_key("get_array_indices_from_lonlat", True),
                                       "get_array_indices_from_lonlat(lon/lat of pixel (row %d, col %d)) gives col %d%s row %d%s" % (
                                           r_, c_, cd, " (masked)" if cm else "", rd, " (masked)" if rm else ""))
@@ -948,11 +957,8 @@ HDR = ("From Coq Require Import ZArith List Bool PrimFloat.\n"
 CHK = {"vectors": "chk_vectors", "coords_numpy": "chk_coords_numpy", "coords_dask": "chk_coords_dask",
        "arr_of_proj": "chk_arr_of_proj", "proj_of_arr": "chk_proj_of_arr", "index_array": "chk_index_array",
        "index_scalar": "chk_index_scalar", "lonlat": "chk_lonlat"}
-SHARD = {"vectors": 60, "coords_numpy": 60, "coords_dask": 50, "arr_of_proj": 80, "proj_of_arr": 120, "index_array": 80,
-         "index_scalar": 120, "lonlat": 12}
-
-
-def evaluate(ctx, specs, coq):
+def evaluate(ctx, specs):
+    """Run the implementation on the specs, apply the property oracle; returns per-area Coq case lines."""
     obs = []
     B = 40
     batches = [specs[i:i + B] for i in range(0, len(specs), B)]
@@ -960,8 +966,12 @@ def evaluate(ctx, specs, coq):
     with ThreadPoolExecutor(max_workers=6) as ex:
         for res in ex.map(lambda b: ctx.impl("c01", {"areas": [{k: v for k, v in s.items() if k != "meta"} for s in b]}), batches):
             obs += res["areas"]
+    out = []
     for spec, o in zip(specs, obs):
+        coq = {k: [] for k in CHK}
         Eval(ctx, spec, o, coq).run()
+        out.append(coq)
+    return out
 
 
 def run(ctx):
@@ -974,38 +984,41 @@ def run(ctx):
                 "An area case is non-trivial when a dask request has more than one block or a lookup point sits on a border or in the tolerance band; "
                 "distinct = distinct (CRS, extent bits, shape)" % len(POOL))
     rng = ctx.rng
-    n = ctx.n(110, 1500)
+    n = ctx.n(96, 1500)
     specs = [gen_area(rng, ctx.thorough, i) for i in range(n)]
-    coq = {k: [] for k in CHK}
-    evaluate(ctx, specs, coq)
-    correspond(ctx, coq)
+    correspond(ctx, evaluate(ctx, specs))
     ctx.notes.append("float32 results (dtype=float32) are observed against the exact map with a float32 tolerance; they are not modelled bit-exactly")
     ctx.notes.append("lon/lat: PROJ is an oracle; the model is evaluated with finite tables produced by pyproj on the coordinate bits; "
                      "theorem C01_lonlat_roundtrip assumes H_roundtrip, H_same, H_dom")
 
 
-def correspond(ctx, coq):
+def correspond(ctx, per_area, shard=12):
+    """One Coq file per shard of areas; one Eval per kind of observation."""
+    kinds = list(CHK)
     texts = []
-    for kind, lines in coq.items():
-        sh = SHARD[kind]
-        for k in range(0, len(lines), sh):
-            part = lines[k:k + sh]
-            texts.append(("c01_%s_%03d" % (kind, k // sh),
-                          HDR + "Definition cases := [%s].\nEval vm_compute in (bad %s cases).\n" % (";\n".join(part), CHK[kind]), part, kind))
-    res = ctx.coq_eval_many([(nm, t) for nm, t, _, _ in texts])
-    for nm, _, lines, kind in texts:
+    for k in range(0, len(per_area), shard):
+        part = per_area[k:k + shard]
+        body, lines = [], {}
+        for kind in kinds:
+            ls = [l for c in part for l in c[kind]]
+            lines[kind] = ls
+            body.append("Definition cases_%s := [%s].\nEval vm_compute in (bad %s cases_%s).\n" % (kind, ";\n".join(ls), CHK[kind], kind))
+        texts.append(("c01_cases_%03d" % (k // shard), HDR + "".join(body), lines))
+    res = ctx.coq_eval_many([(nm, t) for nm, t, _ in texts])
+    for nm, _, lines in texts:
         out, ok = res[nm]
-        if not ok:
-            ctx.broken.append(("correspondence:" + kind, "model evaluation failed (%s): %s" % (nm, out[-300:])))
+        vals = evals(out) if ok else []
+        if not ok or len(vals) != len(kinds):
+            ctx.broken.append(("correspondence:model", "model evaluation failed (%s): %s" % (nm, out[-400:])))
             continue
-        bad = ints(out)
-        if bad:
-            ctx.broken.append(("correspondence:" + kind, "model and implementation differ on %d of %d cases in %s, e.g. %s" % (
-                len(bad), len(lines), nm, lines[bad[0]][:300])))
+        for kind, v in zip(kinds, vals):
+            bad = [int(x) for x in re.findall(r"-?\d+", re.sub(r"%[a-zA-Z]+", "", v))]
+            if bad:
+                ctx.broken.append(("correspondence:" + kind, "model and implementation differ on %d of %d cases in %s, e.g. %s" % (
+                    len(bad), len(lines[kind]), nm, lines[kind][bad[0]][:300])))
 
 
 def replay(ctx, data):
     spec = data["case"]["spec"]
-    coq = {k: [] for k in CHK}
-    evaluate(ctx, [spec], coq)
+    evaluate(ctx, [spec])
     return any(f.key == data.get("key") for f in ctx.failures)
